@@ -158,7 +158,7 @@ def main():
                 res.setdefault('base_expected', {})[fid] = len(expected)
                 verdict = None
             if verdict is not None:
-                res['failures'].append({'file': fid, 'fault': list(fault), 'delivery': delivery,
+                res['failures'].append({'file': fid, 'case': n, 'fault': list(fault), 'delivery': delivery,
                                         'options': list(options), 'failure': verdict,
                                         'signature': M.failure_signature(verdict)})
     except BaseException:
